@@ -72,8 +72,10 @@ def specs_for(tier, seed):
     rng = random.Random(seed)
     specs = []
 
-    def add(cert, pre="none", meta=None, attempts=1):
+    def add(cert, pre="none", meta=None, attempts=1, script=None):
         sp = dict(tag="C01/s%04d" % len(specs), certs=[cert], attempts=attempts, meta=dict(meta or {}, pre=pre))
+        if script:
+            sp["endpoints"] = {"A": {"script": script}}
         steps = []
         if pre != "none":
             steps.append(("call", flowcheck.install_pair({k: (v if k != "identifiers" else [{kk: vv for kk, vv in i.items() if kk != "canon"} for i in v]) for k, v in cert.items()}, pre)))
@@ -110,6 +112,19 @@ def specs_for(tier, seed):
     for i in range(40 if tier == "thorough" else 6):
         sub = {a: ATTRS[a] for a in ATTRS if rng.random() < 0.4}
         add(simple_cert("attr-r%d" % i, ids=ident_set(rng, 2), subject_attributes=sub), meta={"family": "attribute subset", "attrs": sorted(sub)})
+    # a CA that refuses the order (once, or every time) because of what it lists: whatever the daemon does next, an order it sends
+    # lists the configured identifiers - it does not negotiate them down to what the CA would take
+    mixed = [{"dns": "m1.example.org", "canon": "m1.example.org", "challenge": "http-01"}, {"ip": "192.0.2.77", "canon": "192.0.2.77", "challenge": "http-01"},
+             {"dns": "*.m2.example.org", "canon": "*.m2.example.org", "challenge": "dns-01"}, {"ip": "2001:db8::77", "canon": "2001:db8::77", "challenge": "tls-alpn-01"}]
+    errs = ["unsupportedIdentifier", "rejectedIdentifier", "malformed", "caa", "dns", "unauthorized", "rateLimited", "serverInternal"]
+    if tier != "thorough":
+        errs = errs[:3] + [errs[3 + seed % 5]]
+    for k, err in enumerate(errs):
+        for rep in (1, 50):
+            for ids in (mixed, mixed[:2], [mixed[0], mixed[2]]):
+                add(simple_cert("ref%d" % len(specs), ids=ids, key_type="ecdsa_p256"), attempts=2,
+                    script=[{"kind": "newOrder", "nth": 1, "repeat": rep, "fault": "acme:%s:%d" % (err, 400 if err != "serverInternal" else 500)}],
+                    meta={"family": "CA refuses the order", "error": err, "times": rep, "n": len(ids)})
     for reuse in (False, True):
         for pre in ("none", "pair", "badkey", "othertype"):
             for kt in (KEY_TYPES if tier == "thorough" else ["ecdsa_p256", "rsa2048", "ed25519"]):
@@ -132,9 +147,10 @@ def run(ctx):
     judged_csrs = sum(1 for r in results for e in r["events"] if e.get("ev") == "CaReq" and e.get("kind") == "finalize" and (e.get("detail") or {}).get("csr"))
     ok_attempts = sum(1 for r in results for e in r["events"] if e.get("ev") == "AttemptEnd" and e.get("is_success"))
     no_success = [{k: v for k, v in r["meta"].items() if k not in ("flow", "hook_types")} for r in results
-                  if not any(e.get("ev") == "AttemptEnd" and e.get("is_success") for e in r["events"])]
+                  if not any(e.get("ev") == "AttemptEnd" and e.get("is_success") for e in r["events"])
+                  and not (r["meta"].get("family") == "CA refuses the order" and r["meta"].get("times", 0) > 2)]
     if no_success:
-        # every C01 scenario is fault-free: an issuance that does not go through is a divergence between harness and daemon
+        # every other C01 scenario is fault-free (and a CA that refuses the order once takes it the second time): an issuance that does not go through is a divergence between harness and daemon
         for m in no_success[:3]:
             ctx.verdict.violation("fault-free issuance did not succeed (identifiers/CSR refused?): %s" % m, "/verif/work/C01")
     fb, fstats, _ = flowcheck.validate("C01/fid", results, flowcheck.ALL)
